@@ -87,6 +87,11 @@ def prove(prop, log):
                 " ".join(prop.LEAN_TARGETS), ";".join(b.failed_modules or ["?"])))
             log.append(b.log[-3000:])
             return res
+    if res["driver_ok"]:
+        names = C.run_driver(["ops.list"])[0].split()
+        dups = sorted({n for n in names if names.count(n) > 1})
+        if dups:
+            raise RuntimeError("duplicate driver operation names: %s" % dups)
     # forbidden constructs in the sources of the project
     srcs = C.import_closure(list(prop.LEAN_TARGETS) + ["Driver"])
     hits = C.grep_forbidden(srcs)
